@@ -401,6 +401,11 @@ def config_round_trip(ctx, cloud):
         ctx.add(core.decided('C13/%s/%s/billing-relevant-fields-present' % (cloud, cls), {'cores', 'job_private', 'resources'} <= set(cfg.fields), repr(sorted(cfg.fields)), kind='vacuity'))
 
 
+def native_witness(ctx):
+    """concrete search on the real code, usable when the contracts no longer apply to a changed source (vc/check.py)"""
+    return core.run_native(open(os.path.join(os.path.dirname(__file__), 'native', 'c13_replay.py')).read(), {})
+
+
 def build(ctx):
     for cloud in CLOUDS:
         resources(ctx, cloud)
